@@ -40,6 +40,15 @@ CHECK_DEADLOCK FALSE
 """
 
 
+def mc_random(ctx, enforce_new, variant, num, depth):
+    """long random behaviours of the same specification (TLC -simulate): every invariant is
+    evaluated in every state of every behaviour; no bound on the number of file changes"""
+    cfg = (MC_CFG % (10 ** 6, 'TRUE' if enforce_new else 'FALSE', variant, 'TRUE')).replace('CONSTRAINT Bounded\n', '').replace(' StartReg = TRUE', ' StartReg = FALSE')
+    res = tlc.run('MC_Loader', cfg, simulate='num=%d' % num, depth=depth, timeout=3400, seed=ctx.seed + 1)
+    ctx.add_mc('MC_Loader/simulate(%s,enforce_new=%s,behaviours=%dx8,depth=%d)' % (variant, enforce_new, num, depth), res)
+    return res
+
+
 def mc(ctx, maxops, enforce_new, variant, start_main, start_reg=True):
     cfg = MC_CFG % (maxops, 'TRUE' if enforce_new else 'FALSE', variant, 'TRUE' if start_main else 'FALSE')
     if not start_reg:
@@ -85,7 +94,8 @@ def run(ctx):
             for en in (False, True):
                 mc(ctx, 4, en, variant, True)
         mc(ctx, 4, False, 'renamed', False)
-        mc(ctx, 5, False, 'plain', True)
+        for variant in ('renamed', 'split', 'plain'):
+            mc_random(ctx, variant != 'plain', variant, 1500, 24)
         mc(ctx, 3, False, 'split', True, start_reg=False)
         mc(ctx, 3, True, 'renamed', False, start_reg=False)
     rng = ctx.rng
